@@ -18,7 +18,8 @@ pub const K_PROCESS_MUT: u8 = 1;
 pub const K_FORK: u8 = 2;
 pub const K_SEEK: u8 = 3;
 pub const K_TWICE: u8 = 4;
-const KINDS: &[&str] = &["process", "process_mut", "fork", "seek", "apply_twice"];
+pub const K_REFUSED: u8 = 5; // process() with an output buffer of another length: refused, the history goes on from the same position
+const KINDS: &[&str] = &["process", "process_mut", "fork", "seek", "apply_twice", "refused_call"];
 
 pub struct StreamPos;
 
@@ -103,6 +104,10 @@ struct Handle {
     obj: Box<dyn StreamObj>,
     blk: u64,
     off: usize,
+    /// a call on this object was refused loudly earlier (position unchanged by it); later calls may fail loudly too
+    refused: bool,
+    /// it did fail loudly after a refusal: nothing more is asked of it
+    dead: bool,
 }
 
 fn seek_target(rng: &mut Rng) -> u64 {
@@ -145,7 +150,10 @@ impl Scenario for StreamPos {
         gen_stream_params(rng, &mut t, &v);
         let max_handles = rng.range(1, 4) as usize;
         let nops = rng.range(3, if tier == Tier::Thorough { 40 } else { 24 });
-        let mut w = [10u32, 10, 0, 0, 0];
+        let mut w = [10u32, 10, 0, 0, 0, 0];
+        if rng.chance(1, 4) {
+            w[K_REFUSED as usize] = 1; // misuse-injecting configuration
+        }
         if rng.chance(2, 3) {
             w[K_FORK as usize] = 2;
         }
@@ -172,6 +180,9 @@ impl Scenario for StreamPos {
                 K_SEEK => {
                     t.ops.push(Op::new(h as u8, K_SEEK).arg(seek_target(rng)));
                     offs[h] = 0;
+                }
+                K_REFUSED => {
+                    t.ops.push(Op::new(h as u8, K_REFUSED).len(stream_len(rng).min(300)).arg(rng.below(4)).seed(rng.data_seed()));
                 }
                 _ => {
                     let len = stream_len(rng);
@@ -204,7 +215,7 @@ impl Scenario for StreamPos {
         let blocks = (total / 64 + 3 + maxseek as usize).min(400_000);
         let mut reference = Reference::new(&sp, blocks).map_err(|m| Violation::new("unexpected-panic", 0, "one-call reference stream", m, sp.v.name))?;
         let first = guarded(|| make_stream(&sp.v, sp.rounds, &sp.key, &sp.nonce)).map_err(|m| Violation::new("unexpected-panic", 0, "context constructed", m, sp.v.name))?;
-        let mut hs: Vec<Handle> = vec![Handle { obj: first, blk: 0, off: 0 }];
+        let mut hs: Vec<Handle> = vec![Handle { obj: first, blk: 0, off: 0, refused: false, dead: false }];
 
         for (i, op) in t.ops.iter().enumerate() {
             let h = op.h as usize;
@@ -212,7 +223,23 @@ impl Scenario for StreamPos {
                 continue;
             }
             obs.begin_op(i);
+            if hs[h].dead {
+                continue;
+            }
             match op.k {
+                K_REFUSED => {
+                    // process() with mismatched buffer lengths (one shorter / one longer / empty input / empty output)
+                    let n = (op.len as usize).clamp(1, 300);
+                    let (il, ol) = match op.arg % 4 { 0 => (n, n - 1), 1 => (n, n + 1), 2 => (0, 1), _ => (1, 0) };
+                    let input = data(op.seed, il);
+                    let mut out = data(op.seed ^ 0x99, ol);
+                    obs.hit("fault.call_refused_then_history_continued");
+                    let hd = &mut hs[h];
+                    match guarded(|| hd.obj.process(&input, &mut out)) {
+                        Err(_) => hd.refused = true,
+                        Ok(()) => return Err(Violation::new("missing-refusal", i, "loud failure (panic)", "returned normally", format!("{}: process() accepted an input of {} bytes with an output buffer of {} bytes", sp.v.name, il, ol))),
+                    }
+                }
                 K_FORK => {
                     if hs.len() >= 8 {
                         continue;
@@ -223,7 +250,8 @@ impl Scenario for StreamPos {
                     }
                     let o2 = guarded(|| hs[h].obj.fork()).map_err(|m| Violation::new("unexpected-panic", i, "clone", m, sp.v.name))?;
                     let (b, o) = (hs[h].blk, hs[h].off);
-                    hs.push(Handle { obj: o2, blk: b, off: o });
+                    let (rf, dd) = (hs[h].refused, hs[h].dead);
+                    hs.push(Handle { obj: o2, blk: b, off: o, refused: rf, dead: dd });
                 }
                 K_SEEK => {
                     if !seekable {
@@ -249,12 +277,28 @@ impl Scenario for StreamPos {
                     let hd = &mut hs[h];
                     let got: Vec<u8> = if op.k == K_PROCESS_MUT {
                         let mut buf = input.get().to_vec();
-                        guarded(|| hd.obj.process_mut(&mut buf)).map_err(|m| Violation::new("unexpected-panic", i, "process_mut", m, sp.v.name))?;
+                        match guarded(|| hd.obj.process_mut(&mut buf)) {
+                            Ok(()) => {}
+                            Err(_) if hd.refused => {
+                                obs.hit("observed.loud_failure_after_an_earlier_refusal");
+                                hd.dead = true;
+                                continue;
+                            }
+                            Err(m) => return Err(Violation::new("unexpected-panic", i, "process_mut", m, sp.v.name)),
+                        }
                         buf
                     } else {
                         obs.hit("fault.dirty_destination");
                         let mut out = data(op.seed ^ 0x7777, len);
-                        guarded(|| hd.obj.process(input.get(), &mut out)).map_err(|m| Violation::new("unexpected-panic", i, "process", m, sp.v.name))?;
+                        match guarded(|| hd.obj.process(input.get(), &mut out)) {
+                            Ok(()) => {}
+                            Err(_) if hd.refused => {
+                                obs.hit("observed.loud_failure_after_an_earlier_refusal");
+                                hd.dead = true;
+                                continue;
+                            }
+                            Err(m) => return Err(Violation::new("unexpected-panic", i, "process", m, sp.v.name)),
+                        }
                         out
                     };
                     obs.out(&got);
@@ -288,9 +332,16 @@ impl Scenario for StreamPos {
         // end of run: every live handle continues identically from its model position (fork check)
         let n = t.ops.len();
         for (hi, hd) in hs.iter_mut().enumerate() {
+            if hd.dead {
+                continue;
+            }
             let ks = reference.bytes(hd.blk, hd.off, 96, mask, n, obs)?;
             let mut buf = [0u8; 96];
-            guarded(|| hd.obj.process_mut(&mut buf)).map_err(|m| Violation::new("unexpected-panic", n, "process_mut", m, sp.v.name))?;
+            match guarded(|| hd.obj.process_mut(&mut buf)) {
+                Ok(()) => {}
+                Err(_) if hd.refused => continue,
+                Err(m) => return Err(Violation::new("unexpected-panic", n, "process_mut", m, sp.v.name)),
+            }
             obs.out(&buf);
             if buf[..] != ks[..] {
                 return Err(Violation::bytes("stream-mismatch", n, &ks, &buf, format!("{}: end-of-run continuation of handle {} at block {:#x}+{}", sp.v.name, hi, hd.blk, hd.off)));
